@@ -148,10 +148,7 @@ fn judge_eqv_once(obs: &Outcome, a: &Opnd, b: &Opnd) -> Option<(String, String)>
             if x.is_nan() || y.is_nan() {
                 return None;
             }
-            // R7RS: eqv? distinguishes 0.0 and -0.0 "if the implementation does"; not judged
-            if x == 0.0 && y == 0.0 {
-                return None;
-            }
+            // the property asks for numerical equality: 0.0 and -0.0 are eqv? (r7rs leaves that open)
             x == y
         }
         _ => false,
@@ -308,7 +305,7 @@ pub fn run(ctx: &Ctx) {
          binary32 comparison after conversion for mixed ones. Non-trivial = operands with different internal \
          representations, non-canonical representations, or values closer than 1/1000 relative.",
     );
-    ctx.assume("eqv? on 0.0 / -0.0 and on NaN is not judged; max/min with NaN is not judged");
+    ctx.assume("eqv? on NaN is not judged; max/min with NaN is not judged");
     let n = with_ns(|_, g| g.len()) as u64;
     ctx.indexed("pred-pairs", 5 * n * n, 1, |i| {
         Some(with_ns(|ns, g| {
